@@ -613,3 +613,25 @@ example : decoNF (wts2 100 23) 23 18 [[51, 27], [26, 23, 23, 23]] =
       ⟨23, 18, 2, 0⟩] := by decide
 
 end Prtpy.FFD119Gap
+
+/-
+Axiom audit (`#print axioms`, observed with Lean 4.33.0):
+#print axioms Prtpy.FFD119Gap.gen_eleven_ninths_partial_of_gap_count   -- [propext, Classical.choice, Quot.sound]
+#print axioms Prtpy.FFD119Gap.ffd_eleven_ninths_partial_of_gap_count   -- [propext, Classical.choice, Quot.sound]
+#print axioms Prtpy.FFD119Gap.bfd_eleven_ninths_partial_of_gap_count   -- [propext, Classical.choice, Quot.sound]
+#print axioms Prtpy.FFD119Gap.ffd_eleven_ninths_partial_opt_le_100     -- [propext, Classical.choice, Quot.sound]
+#print axioms Prtpy.FFD119Gap.bfd_eleven_ninths_partial_opt_le_100     -- [propext, Classical.choice, Quot.sound]
+#print axioms Prtpy.FFD119Gap.gapCount_of_le_100                       -- [propext, Classical.choice, Quot.sound]
+#print axioms Prtpy.FFD119Gap.nf_five_fourths_gap                      -- [propext, Classical.choice, Quot.sound]
+#print axioms Prtpy.FFD119Gap.nf_item_count                            -- [propext, Classical.choice, Quot.sound]
+#print axioms Prtpy.FFD119Gap.nf_volume                                -- [propext, Classical.choice, Quot.sound]
+#print axioms Prtpy.FFD119Gap.packable_gap_partition                   -- [propext, Classical.choice, Quot.sound]
+#print axioms Prtpy.FFD119Gap.count_of_weights                         -- [propext, Classical.choice, Quot.sound]
+#print axioms Prtpy.FFD119Gap.deficit_le_of_unique                     -- [propext, Classical.choice, Quot.sound]
+#print axioms Prtpy.FFD119Gap.count_quarter_third_via_skeleton         -- [propext, Classical.choice, Quot.sound]
+#print axioms Prtpy.FFD119Gap.regular_of_later                         -- [propext, Classical.choice, Quot.sound]
+#print axioms Prtpy.FFD119Gap.nf_irr_count                             -- [propext, Classical.choice, Quot.sound]
+#print axioms Prtpy.FFD119Gap.regular_weight                           -- [propext, Quot.sound]
+#print axioms Prtpy.FFD119Gap.vrel_next_ge                             -- [propext, Classical.choice, Quot.sound]
+#print axioms Prtpy.FFD119Gap.nf_heads_sorted                          -- [propext, Classical.choice, Quot.sound]
+-/
